@@ -351,8 +351,16 @@ class Implements(NameAndModuleComparisonMixin,
             declared_names = ', ' + declared_names
         return f'classImplements({name}{declared_names})'
 
+    # The class (or other factory) this specification was created for by
+    # ``implementedBy``. Unlike ``inherit`` it is not reset by the *only*
+    # forms of declaration.
+    _implemented_by = None
+
     def __reduce__(self):
-        return implementedBy, (self.inherit, )
+        cls = self.inherit
+        if cls is None:
+            cls = self._implemented_by
+        return implementedBy, (cls, )
 
 
 def _implements_name(ob):
@@ -493,6 +501,7 @@ def implementedBy(
         spec = Implements.named(spec_name, *[implementedBy(c) for c in bases])
         spec.inherit = cls
 
+    spec._implemented_by = cls
     try:
         cls.__implemented__ = spec
         if not hasattr(cls, '__providedBy__'):
